@@ -427,6 +427,10 @@ Check(e) ==
                     Len(ws) = 1 /\ ws[1].a = W(0) /\ ws[1].c = Add(ab.v, W(ab.c)).v
               [] e.name = "wi_carry" ->       \* counter := a + b, wraps (was 5) counts the carry
                     e.got = << ab.v, W(5 + ab.c) >>
+              [] e.name = "ltr_busy" ->       \* the CPU saw the descriptor just stored and marked it busy (bit 41)
+                    /\ Len(e.instrs) = 1 /\ e.instrs[1].m = "ltr" /\ e.instrs[1].a = W(24)
+                    /\ e.instrs[1].b = a /\ e.instrs[1].c = b
+                    /\ e.got = << OrW(a, << 0, 0, 512, 0 >>), b >>
               [] e.name = "port_w32" ->
                     Len(e.instrs) = 1 /\ e.instrs[1].m = "out" /\ e.instrs[1].a = b
                     /\ e.instrs[1].b = W(4) /\ e.instrs[1].c = a
